@@ -23,6 +23,8 @@ ListIsSet(r, S) == DupFree(r) /\ SetOfSeq(r) = S
 MachineOps == {"M.Reset", "M.ChangeZoom", "M.Merge", "M.Shift", "M.NLayer", "M.Lookup",
                "M.Overlap", "M.Reparse", "M.KeyRoundTrip", "M.Expand", "M.Higher", "M.Around", "M.SpRoundTrip"}
 
+\* s lies inside t (both extended IDs; s at least as fine as t on both axes)
+Region3In(s, t) == s[1] >= t[1] /\ s[4] >= t[4] /\ Ancestor(s, t[1], t[4]) = t
 Ok(e) == e.o = "ok"
 Err(e) == e.o = "err"
 
@@ -83,6 +85,13 @@ X_NewExtID(e) == Ok(e) /\ e.r = <<e.a.id, e.a.id, e.a.id>>
 X_Expand(e) == /\ Ok(e) /\ ListIsSet(e.r, ExpandImpl(e.a.id))
                /\ Len(e.r) = ExpandCount(e.a.id)
 X_VoxelID(e) == Ok(e) /\ e.r = <<e.a.id[2], e.a.id[3], e.a.id[5]>>
+
+\* results of a million voxels and more are not shipped to TLC: the harness counts the entries (n) and the
+\* distinct entries (nd) of the real result; the inputs are one voxel `top` and voxels nested in it (or
+\* repeats of it), so the result must have exactly the voxels of top's refinement, each once
+X_Volume(e) == /\ Ok(e) /\ e.r.n = e.r.nd
+               /\ \A i \in 1..Len(e.a.ids) : Region3In(e.a.ids[i], e.a.top)
+               /\ e.r.n = ZoomCountOne(e.a.top, e.a.h, e.a.v)
 
 \* ---- C04 ------------------------------------------------------------------
 Exp_MergeExt(e) == MergeImpl(SetOfSeq(e.a.ids), e.a.h, e.a.v)
@@ -442,6 +451,7 @@ Explains(e) ==
       [] e.op = "NewExtID"             -> X_NewExtID(e)
       [] e.op = "Expand"               -> X_Expand(e)
       [] e.op = "VoxelID"              -> X_VoxelID(e)
+      [] e.op = "Volume"               -> X_Volume(e)
       [] e.op = "MergeExt"             -> X_MergeExt(e)
       [] e.op = "MergeSp"              -> X_MergeSp(e)
       [] e.op = "MergeSteps"           -> X_MergeSteps(e)
@@ -517,6 +527,7 @@ Expected(e) ==
     [] e.op = "NewExtID"             -> <<e.a.id, e.a.id, e.a.id>>
     [] e.op = "Expand"               -> ExpandImpl(e.a.id)
     [] e.op = "VoxelID"              -> <<e.a.id[2], e.a.id[3], e.a.id[5]>>
+    [] e.op = "Volume"               -> [n |-> ZoomCountOne(e.a.top, e.a.h, e.a.v), distinct |-> "all"]
     [] e.op = "MergeExt"             -> Exp_MergeExt(e)
     [] e.op = "MergeSp"              -> Exp_MergeSp(e)
     [] e.op = "MergeSteps"           -> Exp_MergeSteps(e)
